@@ -25,6 +25,8 @@ SPELL = {"M": ["M", "m", "METER", "meters", "Metres", "METRE", "metre", "Ð¼", "Ð
          "FT": ["FT", "ft", "F", "f", "FEET", "feet", "Foot", "Ft"],
          ".1IN": [".1IN", "0.1IN", ".1in", "0.1inch", ".1INCH", "0.1In"],
          "other": ["", "km", "s", "ms", "degC", "gAPI", "us", "lbs"]}
+DECOYS = [("M", "M", "M", "M"), ("FT", "FT", "FT", "FT"), (".1IN", ".1IN", ".1IN", ".1IN"), ("other", "other", "other", "other"),
+          ("M", "FT", "other", "other")]
 
 
 def strict_loads(text):
@@ -329,7 +331,17 @@ def unit_event(classes, rng):
     us = [rng.choice(SPELL[c]) for c in classes]
     text = ("~V\nVERS. 2.0:\nWRAP. NO:\n~W\nSTRT  .%s 100:\nSTOP  .%s 200:\nSTEP  .%s 50:\nNULL. -999.25:\n~C\nDEPT  .%s:\nGR.:\n~A\n100 1\n150 2\n200 3\n"
             % tuple(us))
-    las = lasio.read(text)
+    if rng.random() < 0.5:
+        # the LASFile object was used before, for a file with other units (a second read() into the same object): what is
+        # recognised is a function of the file read last
+        las = lasio.LASFile()
+        las.read(io.StringIO(("~V\nVERS. 2.0:\nWRAP. NO:\n~W\nSTRT  .%s 100:\nSTOP  .%s 200:\nSTEP  .%s 50:\nNULL. -999.25:\n~C\nDEPT  .%s:\nGR.:\n~A\n"
+                              "100 1\n150 2\n200 3\n") % tuple(rng.choice(SPELL[c]) for c in rng.choice(list(DECOYS)))))
+        las.read(io.StringIO(text))
+        if [las.well["STRT"].unit, las.well["STOP"].unit, las.well["STEP"].unit, las.curves[0].unit] != us or len(las.curves) != 2:
+            las = lasio.read(text)          # (a second read that does not replace the header is not this clause's business)
+    else:
+        las = lasio.read(text)
     iu = las.index_unit
     ev = {"op": "unit", "classes": list(classes), "spelled": us, "index_unit": "none" if iu is None else str(iu),
           "depth_defined": False, "m_equals_ft_times_03048": False}
